@@ -22,14 +22,16 @@
                         a simulation through every step function, using the progress facts of ParserTotal.v to keep
                         Context::prev inside the statement's own tokens - hence `loop do B` parses if and only if
                         `loop true do B` does, to the same statement, ending in the same place.
-   What is NOT proved and stays a visible Prop (never assumed): C14_nl_in_brackets_statement_settled (the
-   corrected form of C14_nl_in_brackets_statement_level, which is REFUTED below as it was stated: same fuel on both
-   sides), C14_ws_insert_whole_input.  The trailing-expression = ret sugar is a statement
-   about emitted code, not about parsing; it is covered by the byte-level oracle of tools/props/c14.py. *)
+     C14_nl_in_brackets_statement_settled (Parse/LayoutStmt.v) the same at STATEMENT level (definitions with type
+                        annotations, assignments, declarations, use/from, ret, loops, do-blocks; no fn/pu/if/case):
+                        with at least parse_fuel on both sides both inputs are accepted with the same tree or both
+                        rejected.  (The first formulation, same fuel on both sides with matching out-of-fuel
+                        outcomes, is REFUTED below: C14_nl_in_brackets_statement_level_same_fuel_refuted.)
+   What is NOT proved and stays a visible Prop (never assumed): C14_ws_insert_whole_input.  *)
 From Coq Require Import String List NArith Bool Arith.
 From Sylt Require Import Lex.Regex Lex.Logos Lex.LayoutProofs Gen.GenTokens
   Syntax.Ast Syntax.Tok Parse.PrecTable Parse.Parser Parse.ParserProofs Parse.OpTree Parse.ExprRoundTrip
-  Parse.Sugar Parse.Layout Parse.LayoutSim Parse.ParserTotal Parse.PreSim Gen.GenPrec.
+  Parse.Sugar Parse.Layout Parse.LayoutSim Parse.ParserTotal Parse.PreSim Parse.LayoutStmt Gen.GenPrec.
 Import ListNotations.
 
 Definition gen_ptab : ptab := interp GenPrec.table.
@@ -181,19 +183,22 @@ Proof.
   specialize (H D F1 F2 I I). vm_compute in H. exact H.
 Qed.
 
+(* ---- the corrected statement, proved ---- *)
+Theorem C14_nl_in_brackets_statement_settled : forall ts ts' f,
+  insignificant_diff ts ts' -> frag ts -> frag ts' ->
+  (match ts with TComment :: _ => False | _ => True end) ->
+  (match ts' with TComment :: _ => False | _ => True end) ->
+  parse_fuel ts <= f -> parse_fuel ts' <= f ->
+  match parse_statement gen_ptab f ts, parse_statement gen_ptab f ts' with
+  | Ok (s, _), Ok (s', _) => s = s'
+  | Err _ _, Err _ _ => True
+  | _, _ => False
+  end.
+Proof. exact (nl_in_brackets_statement_settled gen_ptab C14_bracket_sane C14_total_ok). Qed.
+
 (* ---- stated, not proved ---- *)
 Definition C14_nl_in_brackets_statement_level : Prop := nl_in_brackets_statement_level gen_ptab.   (* refuted above *)
-Definition C14_nl_in_brackets_statement_settled : Prop := nl_in_brackets_statement_settled_statement gen_ptab.
 Definition C14_ws_insert_whole_input : Prop := ws_insert_statement gen_table.
-
-(* what totality gives towards the corrected statement: with enough fuel both runs end in a tree or in errors;
-   what is missing is that one accepts exactly when the other does, with equal trees *)
-Theorem C14_nl_in_brackets_statement_settled_partial : forall ts ts' f,
-  parse_fuel ts <= f -> parse_fuel ts' <= f ->
-  settled (parse_statement gen_ptab f ts) /\ settled (parse_statement gen_ptab f ts').
-Proof.
-  intros ts ts' f H1 H2. split; apply parse_statement_total; try assumption; exact C14_total_ok.
-Qed.
 
 (* ---- non-vacuity ---- *)
 Definition nm (s : string) : name := ascii_name s.
@@ -278,6 +283,46 @@ Example C14_example_nlb_result :
   /\ option_map fst (observe (parse_expression gen_ptab 60 nlb_clean)) <> None.
 Proof. vm_compute. split; [reflexivity|discriminate]. Qed.
 
+(* statement level: a loop over a block with a typed definition, a call and a blob literal; line breaks and
+   comments inside the brackets only.  The hypotheses of C14_nl_in_brackets_statement_settled hold and both inputs
+   are accepted (so the theorem says: with the same tree); the refutation pair is rejected on both sides. *)
+Definition nls_clean : list tok :=
+  [TK KLoop; TIdent (nm "c"); TK KDo; TK KNewline;
+   TIdent (nm "x"); TK KColon; TK KLeftParen; TK KIntType; TK KComma; TK KLeftBracket; TK KIntType; TK KRightBracket;
+   TK KRightParen; TK KEqual; TK KLeftParen; TInt 1; TK KComma; TK KLeftBracket; TInt 2; TK KRightBracket; TK KRightParen; TK KNewline;
+   TIdent (nm "f"); TK KLeftParen; TIdent (nm "x"); TK KComma; TIdent (nm "A"); TK KLeftBrace; TIdent (nm "v"); TK KColon; TInt 3;
+   TK KRightBrace; TK KRightParen; TK KNewline;
+   TK KLoop; TK KDo; TK KBreak; TK KEnd; TK KEnd; TK KNewline].
+Definition nls_dirty : list tok :=
+  [TK KLoop; TIdent (nm "c"); TComment; TK KDo; TK KNewline;
+   TIdent (nm "x"); TK KColon; TK KLeftParen; TK KNewline; TK KIntType; TK KComma; TK KNewline; TK KLeftBracket; TK KNewline;
+   TK KIntType; TK KRightBracket; TK KNewline;
+   TK KRightParen; TK KEqual; TK KLeftParen; TInt 1; TK KComma; TComment; TK KNewline; TK KLeftBracket; TInt 2; TK KNewline;
+   TK KRightBracket; TK KRightParen; TComment; TK KNewline;
+   TIdent (nm "f"); TK KLeftParen; TK KNewline; TIdent (nm "x"); TK KComma; TK KNewline; TIdent (nm "A"); TK KLeftBrace; TK KNewline;
+   TIdent (nm "v"); TK KColon; TK KNewline; TInt 3; TK KNewline;
+   TK KRightBrace; TK KNewline; TK KRightParen; TK KNewline;
+   TK KLoop; TK KDo; TK KBreak; TK KEnd; TK KEnd; TComment; TK KNewline].
+
+Example C14_example_nls :
+  insignificant_diff nls_clean nls_dirty /\ frag nls_clean /\ frag nls_dirty
+  /\ observe_s (parse_statement gen_ptab (parse_fuel nls_dirty) nls_clean)
+     = observe_s (parse_statement gen_ptab (parse_fuel nls_dirty) nls_dirty)
+  /\ observe_s (parse_statement gen_ptab (parse_fuel nls_dirty) nls_clean) <> None
+  /\ (exists c es c' es', parse_statement gen_ptab 200 (refute_ts true) = Err c es
+                          /\ parse_statement gen_ptab 200 (refute_ts false) = Err c' es').
+Proof.
+  split; [|split; [repeat constructor|split; [repeat constructor|]]].
+  - unfold insignificant_diff, nls_clean, nls_dirty.
+    repeat first [ apply E_nil
+                 | apply E_tok; [reflexivity|reflexivity|reflexivity|]
+                 | apply E_open; [reflexivity|]
+                 | apply E_close; [reflexivity|]
+                 | apply E_close0; [reflexivity|]
+                 | apply E_trr; [reflexivity|] ].
+  - vm_compute. split; [reflexivity|split; [discriminate|]]. repeat eexists.
+Qed.
+
 (* white space after identifier, number, operator and keyword texts: the live patterns die *)
 Definition codes (s : string) : list N := ascii_name s.
 Example C14_example_ws_dies :
@@ -304,7 +349,7 @@ Print Assumptions C14_statement_pre_insensitive.
 Print Assumptions C14_loop_do_unconditional.
 Print Assumptions C14_loop_do_converse.
 Print Assumptions C14_nl_in_brackets_statement_level_same_fuel_refuted.
-Print Assumptions C14_nl_in_brackets_statement_settled_partial.
+Print Assumptions C14_nl_in_brackets_statement_settled.
 Print Assumptions C14_layout_token.
 Print Assumptions C14_layout_skip.
 Print Assumptions C14_layout_lookahead.
